@@ -117,6 +117,155 @@ def extract_unit(path, flags, root=REPO):
     return json.loads(p.stdout.decode("utf-8"))
 
 
+def _subtree(nodes, root):
+    """copy of the sub-tree below nodes[root] with ids renumbered from 0"""
+    order = []
+    def walk(i):
+        if i is None or i < 0 or nodes[i] is None:
+            return
+        order.append(i)
+        for c in nodes[i].get("ch", []):
+            walk(c)
+    walk(root)
+    remap = {old: new for new, old in enumerate(order)}
+    out = []
+    for old in order:
+        n = dict(nodes[old])
+        n["id"] = remap[old]
+        n["ch"] = [remap.get(c, -1) for c in n.get("ch", [])]
+        out.append(n)
+    return out
+
+
+def flatten_global_records(units, results, repo):
+    """A record object with static storage that merely gathers objects the rules were confirmed against (the security
+    settings in one struct, the tool's state in one struct) is taken apart again: `G.field` becomes a reference to the
+    confirmed object, which is given back as a global of its own.  Only done when every use of G is `G.field` with a
+    field that has exactly one confirmed counterpart (same type, overlapping name); anything else leaves G alone."""
+    try:
+        with open(os.path.join(VERIF, "rules", "tables", "anchors.json")) as f:
+            conf = json.load(f).get("globals")
+    except OSError:
+        conf = None
+    done = {}
+    if not conf or os.environ.get("VERIF_NO_RENAME"):
+        return done
+    for key in ("lib", "util"):
+        raws = [(os.path.relpath(u[0], repo), r) for u, r in zip(units, results) if os.path.relpath(u[0], repo).startswith("util/") == (key == "util")]
+        defined = set(g["name"] for _rel, r in raws for g in r["globals"] if g.get("is_def"))
+        vanished = [c for c in conf.get(key, []) if c["name"] not in defined]
+        if not vanished:
+            continue
+        # candidate record objects
+        records = {}
+        for _rel, r in raws:
+            for rec in r["records"]:
+                if rec.get("name"):
+                    records.setdefault("struct " + rec["name"], rec)
+                records.setdefault("struct (unnamed at %s:%s:%s)" % (rec.get("file"), rec.get("line"), rec.get("col")), rec)
+        cands = {}
+        for _rel, r in raws:
+            for g in r["globals"]:
+                if g.get("ct") in records and g["name"] not in [c["name"] for c in conf.get(key, [])]:
+                    cands.setdefault(g["name"], records[g["ct"]])
+        used = set()
+        for gname, rec in sorted(cands.items()):
+            mapping = {}
+            for fi, fld in enumerate(rec["fields"]):
+                ftok = set(t for t in fld["name"].lower().split("_") if t)
+                scored = []
+                for c in vanished:
+                    if c["ct"] != fld.get("ct") or c["name"] in used:
+                        continue
+                    ctok = set(t for t in c["name"].lower().split("_") if t)
+                    sc = len(ftok & ctok)
+                    if c["name"].lower().endswith(fld["name"].lower()) or fld["name"].lower().endswith(c["name"].lower()):
+                        sc += 10
+                    if c["name"] == fld["name"]:
+                        sc += 100
+                    if sc:
+                        scored.append((sc, c["name"]))
+                scored.sort(reverse=True)
+                if scored and (len(scored) == 1 or scored[0][0] > scored[1][0]):
+                    mapping[fld["name"]] = (fi, scored[0][1])
+            if not mapping or len(set(v[1] for v in mapping.values())) != len(mapping):
+                continue
+            # every use of G must be G.<mapped field>
+            ok = True
+            sites = []
+            for _rel, r in raws:
+                for fj in r["functions"]:
+                    nodes = fj["nodes"]
+                    parent = {}
+                    for n in nodes:
+                        if n:
+                            for c in n.get("ch", []):
+                                if c is not None and c >= 0:
+                                    parent[c] = n["id"]
+                    for n in nodes:
+                        if n and n["k"] == "DeclRefExpr" and n.get("name") == gname and n.get("dk") in ("global", "static_global"):
+                            up = parent.get(n["id"])
+                            chain = [n["id"]]
+                            while up is not None and nodes[up]["k"] == "ParenExpr":
+                                chain.append(up)
+                                up = parent.get(up)
+                            if up is None or nodes[up]["k"] != "MemberExpr" or nodes[up].get("arrow") or nodes[up].get("member") not in mapping:
+                                ok = False
+                            else:
+                                sites.append((fj, up, chain))
+            if not ok:
+                continue
+            for fj, mid, chain in sites:
+                nodes = fj["nodes"]
+                m = nodes[mid]
+                base = nodes[chain[0]]
+                fi, cname = mapping[m["member"]]
+                m["k"] = "DeclRefExpr"
+                m["name"] = cname
+                m["dk"] = base.get("dk")
+                m["did"] = "%s.%d" % (base.get("did"), fi)
+                m["ch"] = []
+                m["flattened_from"] = "%s.%s" % (gname, m.pop("member"))
+                for k2 in ("arrow", "fidx", "rec"):
+                    m.pop(k2, None)
+                dead = set(chain)
+                for d in dead:
+                    nodes[d] = {"id": d, "k": "NullStmt", "ch": [], "line": nodes[d].get("line", 0), "col": nodes[d].get("col", 0)}
+                for b in (fj.get("cfg") or {}).get("blocks", []):
+                    b["elems"] = [e for e in b["elems"] if e not in dead]
+            for rel, r in raws:
+                newg = []
+                for g in r["globals"]:
+                    if g["name"] != gname:
+                        newg.append(g)
+                        continue
+                    gnodes = g.get("nodes", [])
+                    init = g.get("init", -1)
+                    for fname, (fi, cname) in sorted(mapping.items(), key=lambda kv: kv[1][0]):
+                        fld = rec["fields"][fi]
+                        v = {"name": cname, "t": fld.get("t"), "ct": fld.get("ct"), "static": g.get("static", False), "extern": g.get("extern", False),
+                             "const": g.get("const", False), "is_def": g.get("is_def", False), "file": g.get("file"),
+                             "line": fld.get("line", g.get("line", 0)), "col": fld.get("col", 0), "did": "%s.%d" % (g.get("did"), fi),
+                             "nodes": [], "flattened_from": "%s.%s" % (gname, fname)}
+                        for k2 in ("sg", "w"):
+                            if k2 in fld:
+                                v[k2] = fld[k2]
+                        if fld.get("arr"):
+                            v["arr"] = fld["arr"]
+                        if init is not None and init >= 0 and gnodes and gnodes[init].get("k") == "InitListExpr" and fi < len(gnodes[init].get("ch", [])):
+                            sub = _subtree(gnodes, gnodes[init]["ch"][fi])
+                            if sub and sub[0].get("k") != "ImplicitValueInitExpr":
+                                v["nodes"] = sub
+                                v["init"] = 0
+                        newg.append(v)
+                    if len(mapping) != len(rec["fields"]):
+                        newg.append(g)      # the record keeps fields of its own
+                r["globals"] = newg
+            used |= set(v[1] for v in mapping.values())
+            done[gname] = {f: v[1] for f, v in mapping.items()}
+    return done
+
+
 def parse_map(repo=REPO):
     """Exported symbols from lib/libeconf.map (global: sections)."""
     try:
@@ -192,6 +341,7 @@ class Program:
         with ThreadPoolExecutor(max_workers=min(16, len(units))) as ex:
             results = list(ex.map(lambda u: extract_unit(u[0], u[1], repo), units))
         prog.wall["extract"] = time.time() - t1
+        prog.flattened_globals = flatten_global_records(units, results, repo)
         for (path, _), raw in zip(units, results):
             prog._add_unit(path, raw)
         prog.exports = parse_map(repo)
